@@ -142,18 +142,18 @@ PROPS["C20"] = dict(
     coq=["Props.C20_cursor", "Props.C20_models", "Props.C15:C20_huffman", "Props.C03_float:C20_float",
          "Props.C10_ans:C10_ans_decode_fits", "Props.C13:C13_decode_no_overflow,C13_encode_no_overflow",
          "Props.C03_leaky:C03_leaky_step_guard,C10_leaky", "Props.C20_leaky"],
-    fams=[("fam_ans", "gen_free", 150, 5000), ("fam_ans", "gen_stack", 100, 5000),
-          ("fam_ansseek", "gen_seek", 100, 4000), ("fam_ansb", "gen_bounded", 60, 3000),
-          ("fam_backend", "gen_cursor", 150, 8000), ("fam_backend", "gen_adapter", 60, 3000),
+    fams=[("fam_ans", "gen_free", 150, 2500), ("fam_ans", "gen_stack", 100, 2500),
+          ("fam_ansseek", "gen_seek", 100, 2000), ("fam_ansb", "gen_bounded", 60, 1500),
+          ("fam_backend", "gen_cursor", 150, 4000), ("fam_backend", "gen_adapter", 60, 1500),
           ("fam_backend", "gen_bufmut", 6, 30),
-          ("fam_bits", "gen_free", 100, 4000), ("fam_bits", "gen_eg_garbage", 60, 3000),
-          ("fam_chain", "gen_free", 120, 5000), ("fam_chain", "gen_boundary", 60, 3000),
-          ("fam_huff", "gen_edge", 30, 1500), ("fam_huff", "gen_overflow", 6, 30),
-          ("fam_models", "gen_malformed", 150, 8000), ("fam_models", "gen_valid", 100, 5000),
-          ("fam_models", "gen_conv", 120, 5000),
-          ("fam_floatq", "gen_malformed", 80, 4000), ("fam_floatq", "gen_f9", 40, 2000),
-          ("fam_leaky", "gen_step", 50, 4000), ("fam_leaky", "gen_f13", 15, 1000), ("fam_leaky", "gen_f16", 40, 3000),
-          ("fam_leaky", "gen_new", 40, 3000)],
+          ("fam_bits", "gen_free", 100, 2000), ("fam_bits", "gen_eg_garbage", 60, 1500),
+          ("fam_chain", "gen_free", 120, 2500), ("fam_chain", "gen_boundary", 60, 1500),
+          ("fam_huff", "gen_edge", 30, 750), ("fam_huff", "gen_overflow", 6, 30),
+          ("fam_models", "gen_malformed", 150, 4000), ("fam_models", "gen_valid", 100, 2500),
+          ("fam_models", "gen_conv", 120, 2500),
+          ("fam_floatq", "gen_malformed", 80, 2000), ("fam_floatq", "gen_f9", 40, 1000),
+          ("fam_leaky", "gen_step", 50, 2000), ("fam_leaky", "gen_f13", 15, 500), ("fam_leaky", "gen_f16", 40, 1500),
+          ("fam_leaky", "gen_new", 40, 1500)],
     anchors=["src/lib.rs", "src/backends.rs", "src/stream/model/categorical/contiguous.rs",
              "src/stream/model/categorical/non_contiguous.rs", "src/stream/model/categorical/lookup_contiguous.rs",
              "src/stream/model/categorical/lookup_noncontiguous.rs", "src/stream/model/quantize.rs",
